@@ -83,6 +83,8 @@ def parseKeep (tok : String) : Option (Keep × KeepSpec × String) :=
       some (keepTags want, .tags want, "tags")
     | _ => none
 
+def hasSub (s sub : String) : Bool := (s.splitOn sub).length > 1
+
 /-! ## canonical id strings -/
 
 def kindRank : Kind → Nat | .node => 0 | .way => 1 | .rel => 2
@@ -340,8 +342,6 @@ def countStr : Except Fault2 (List TagCount) → String
   | .ok l => ",".intercalate (l.map fun t =>
       s!"{keyStr t.key}={valStr t.val}:{t.total}:{t.node}:{t.closedWay}:{t.openWay}:{t.rel}")
 
-def hasSub (s sub : String) : Bool := (s.splitOn sub).length > 1
-
 /-- implementation's CountTags answer in the model's vocabulary (a panic only counts as THE modelled one) -/
 def normCount (s : String) : String :=
   if s.startsWith "panic:" && hasSub s "index_out_of_range" then "panic" else s
@@ -493,7 +493,14 @@ def judgeLine (line : String) : String :=
             if f1.any (· != want) then some s!"Filter-is-not-the-least-closed-set got={";".intercalate f1} want={want}"
             else if f2 != f1 then some s!"Filter-not-idempotent got={";".intercalate f2} want={want}"
             else if !dang && chk1 != "ok" then some "Check-fails-on-Filter-result"
-            else none
+            else match (fieldOf "fdig=" rhs).map (splitS '|') with
+              | some [d1, d2] =>
+                -- what Geom / CountTags / the stored objects show of a Filter result must not depend on the Go map
+                -- order (4 runs), and filtering again must not change it (idempotent as a value, not only as an id set)
+                if hasSub d1 ";" || hasSub d2 ";" then some s!"Filter-result-depends-on-map-iteration-order (same ids; stored objects / Geom / CountTags differ) {d1}|{d2}"
+                else if d1 != d2 then some s!"Filter-not-idempotent (same ids; stored objects / Geom / CountTags differ) {d1}|{d2}"
+                else none
+              | _ => none
         match filtBad with
         | some w => s!"SPEC {cls} {w}"
         | none =>
